@@ -10,6 +10,7 @@
 # information at https://github.com/ddsmt/ddSMT/blob/master/LICENSE.
 
 import io
+import os
 import typing
 
 from .nodes import Node
@@ -232,9 +233,22 @@ def write_smtlib(file: typing.TextIO, exprs: typing.List[Node]):
 
 
 def write_smtlib_to_file(filename: str, exprs: typing.List[Node]):
-    """Use ``write_smtlib`` to write to a filename."""
-    with open(filename, 'w') as file:
-        write_smtlib(file, exprs)
+    """Use ``write_smtlib`` to write to a filename.
+
+    The output file is documented to be usable while ddSMT is still running
+    and after it was interrupted. The new content is thus written to a
+    temporary file next to it, which then atomically replaces it."""
+    tmpname = f'{filename}.tmp-{os.getpid()}'
+    try:
+        with open(tmpname, 'w') as file:
+            write_smtlib(file, exprs)
+        os.replace(tmpname, filename)
+    except BaseException:
+        try:
+            os.remove(tmpname)
+        except OSError:
+            pass
+        raise
 
 
 def write_smtlib_to_str(exprs: typing.List[Node]):
